@@ -1,0 +1,13 @@
+//go:build verif
+
+// Contracts for package core/states, read by /verif/gocv.
+package states
+
+//@ func GenRawStorageItem
+//@   trusted   -- streaming serialization into bytes.Buffer (state version byte, then var-bytes of the value)
+//@   ensures len(result) >= 2 && bytes(result) == rawItem(bytes(value))
+//@   fresh result
+
+//@ func GetValueFromRawStorageItem
+//@   trusted
+//@   ensures r1 == nil ==> rawItem(bytes(r0)) == bytes(raw)
